@@ -356,6 +356,66 @@ theorem unipi_decode_wellformed (r0 r1 : Nat) (h : (r0 = 0x100 → r1 < 256) ∧
       omega
     · simp [Unipi.decode, unipiMeaning, h1, h2]
 
+/-! ### UniPi receive side: the receive counter is hidden gateway state -/
+
+/-- `_read_returning_frame`: the registers are taken as a new reply **iff** the counter differs from the sample -/
+theorem unipi_reply_detected_iff (c1 : Nat) (p : Unipi.Poll) :
+    Unipi.readReturning c1 p = (if c1 = p.counter then none else some (Unipi.decode p.r0 p.r1)) := by
+  by_cases h : c1 = p.counter <;> simp [Unipi.readReturning, h]
+
+/-- **unipi_reply_detected_across_wrap**: for all counters `c1 ≠ c2` — in any order, in particular `c1 = 0xFFFF`,
+`c2 = 0` when the 16-bit register wraps — the reply is taken and decoded.  (Seeded change C18-D, `counter2 > counter1`,
+contradicts this for every `c2 < c1`.) -/
+theorem unipi_reply_detected_across_wrap (c1 c2 r0 r1 fe : Nat) (h : c1 ≠ c2) :
+    Unipi.readReturning c1 ⟨c2, r0, r1, fe⟩ = some (Unipi.decode r0 r1) := by
+  simp [Unipi.readReturning, h]
+
+example : Unipi.readReturning 0xFFFF ⟨0, 0x100, 0x44, 0⟩ = some (.backward 0x44) := by decide
+
+/-- the polling loop takes a backward frame at any of its iterations: `k < m` polls showing the sampled counter (stale
+registers of any content), then one with any other counter and a backward frame -/
+theorem unipi_poll_reply_any_position (cmp : Bool) (c1 fe1 c2 v fe t d : Nat) (hne : c1 ≠ c2) (hv : v < 256)
+    (rest : List Unipi.Poll) : ∀ (k m : Nat), k < m →
+    Unipi.pollLoop cmp c1 fe1 ((List.replicate k (⟨c1, t, d, fe1⟩ : Unipi.Poll) ++ ⟨c2, 0x100, v, fe⟩ :: rest).take m)
+      = .response (some v) := by
+  intro k
+  induction k with
+  | zero =>
+    intro m hm
+    obtain ⟨m', rfl⟩ : ∃ m', m = m' + 1 := ⟨m - 1, by omega⟩
+    simp [Unipi.pollLoop, Unipi.readReturning, hne, Unipi.decode, hv]
+  | succ k ih =>
+    intro m hm
+    obtain ⟨m', rfl⟩ : ∃ m', m = m' + 1 := ⟨m - 1, by omega⟩
+    simp only [List.replicate_succ, List.cons_append, List.take_succ_cons, Unipi.pollLoop, Unipi.readReturning]
+    simp [ih m' (by omega)]
+
+/-- **an answered query returns its value whatever the counter**: against the gateway's registers (`unipiPolls`), for
+every value `0..65535` of the hidden receive counter (the wrap included), every stale register content, every poll `k < 6`
+before which the backward frame `v` arrives, `send` returns what the exchange denotes, `command.response(BackwardFrame(v))` -/
+theorem unipi_answered_query_returns_value (g : UnipiRx) (hc : g.counter < 65536) (k v fe : Nat) (hk : k < 6)
+    (hv : v < 256) (cmp : Bool) :
+    Unipi.recv true cmp g.counter fe (unipiPolls fe none g [(k, 0x100, v)] 0 6)
+      = unipiExchange true cmp [(k, 0x100, v)] none
+    ∧ unipiExchange true cmp [(k, 0x100, v)] none = .response (some v) := by
+  have hne : ¬ g.counter = (g.counter + 1) % 65536 := by omega
+  have hk' : k = 0 ∨ k = 1 ∨ k = 2 ∨ k = 3 ∨ k = 4 ∨ k = 5 := by omega
+  rcases hk' with rfl | rfl | rfl | rfl | rfl | rfl <;>
+    simp [unipiPolls, unipiExchange, Unipi.recv, Unipi.nPolls, Unipi.pollLoop, Unipi.readReturning, UnipiRx.receive,
+      Unipi.decode, hne, hv]
+
+/-- an unanswered query is "no answer" whatever the (stale) registers hold; a command that expects no reply returns the
+no-response marker -/
+theorem unipi_unanswered_query (g : UnipiRx) (fe : Nat) (cmp : Bool) :
+    Unipi.recv true cmp g.counter fe (unipiPolls fe none g [] 0 6) = unipiExchange true cmp [] none
+    ∧ unipiExchange true cmp [] none = .response none := by
+  simp [unipiPolls, unipiExchange, Unipi.recv, Unipi.nPolls, Unipi.pollLoop, Unipi.readReturning]
+
+theorem unipi_no_reply_expected (cmp : Bool) (c1 fe1 : Nat) (polls : List Unipi.Poll) (ev : List (Nat × Nat × Nat))
+    (feAt : Option Nat) :
+    Unipi.recv false cmp c1 fe1 polls = unipiExchange false cmp ev feAt := by
+  simp [Unipi.recv, unipiExchange]
+
 /-- Tridonic DALI USB: every well-formed 64-byte response report means what the format says -/
 theorem tridonic_decode_wellformed (p : List Nat) (h : tridonicWellFormed p) : Tridonic.decode p = tridonicMeaning p :=
   tridonic_decode_wf p h
